@@ -418,7 +418,7 @@ class ParametricSweepFactory:
                 "required_external_parameters": list(
                     getattr(cls, "_required_external", ())
                 ),
-                "context_keys": list(getattr(cls, "_from_context_keys", ())),
+                "context_keys": sorted(getattr(cls, "_from_context_keys", ())),
             }
             return {
                 "type": "derive.parameter_sweep",
